@@ -484,4 +484,8 @@ def gen_queries(rng, sig, conds, k, extra_atom_p=0.05, depth=2, p_tie=0.2, p_dee
         else:
             qs.append((fml.rand_formula(rng, s, rng.randint(0, depth), 0.04),
                        fml.rand_formula(rng, s, rng.randint(0, depth), 0.04)))
+    if conds and k >= 3 and p_deep and rng.random() < 0.08:
+        # a pair of deep twins in ONE batch (different queries, identical down to nesting depth >= 6)
+        t1, t2 = deep_twins(rng, pool, conds)
+        qs[-2], qs[-1] = t1, t2
     return qs
